@@ -14,9 +14,11 @@ def normalise(text):
     """identical apart from the order in which several reasons are listed inside one comment"""
     out = []
     for ln in text.splitlines():
-        if ln.lstrip().startswith(('//', '#')) and '{' in ln and '}' in ln:
-            a, b = ln.index('{'), ln.rindex('}')
-            inner = sorted(x.strip() for x in re.split(r'",\s*|\',\s*', ln[a + 1:b]))
+        if ln.lstrip().startswith(('//', '#')) and '(' in ln and ')' in ln and ln.index('(') < ln.rindex(')'):
+            # the reasons of one comment, printed as a set `{...}`, a list `([...])` or a plain `(a, b)`: the fragments between
+            # commas are compared as a multiset, which no permutation of the reasons changes
+            a, b = ln.index('('), ln.rindex(')')
+            inner = sorted(x.strip(' \t"\'[]{}') for x in ln[a + 1:b].split(','))
             ln = ln[:a + 1] + '|'.join(inner) + ln[b:]
         out.append(ln)
     return '\n'.join(out)
